@@ -58,12 +58,30 @@ func (propC10) Draw(rt *rapid.T, w *WorldDesc, mode string) *Plan {
 		md := methods[rapid.IntRange(0, len(methods)-1).Draw(rt, l+".rpc")]
 		rpc := w.RPC(md.Key)
 		op := &Op{ID: i, RPC: md.Key, Server: "go"}
+		if p.Hook == nil {
+			op.Server = drawServer(rt, l+".server")
+		}
 		src := rapid.SampledFrom(errorSources).Draw(rt, l+".source")
 		useRaw := rapid.Bool().Draw(rt, l+".raw")
+		useTSClient := !useRaw && globalBridge != nil && ctClient == "application/json" && rapid.Bool().Draw(rt, l+".tsclient")
 		req := drawValidReq(rt, w, md, l+".req")
+		if op.Server == "ts" || useTSClient {
+			scrubNonFinite(req.ProtoReflect(), 0)
+		}
+		if op.Server == "ts" {
+			switch src {
+			case "err-custom", "err-wrapped-custom", "err-sebuf":
+				src = "err-plain"
+			case "rule":
+				src = "err-validation"
+			}
+		}
 		resp := md.NewResp()
 		op.RespBin = mustMarshal(resp)
 		ct := ctClient
+		if op.Server == "ts" {
+			ct = "application/json"
+		}
 		hdrs := ValidHeaders(rpc, i)
 		var raw *RawReq
 		mkRaw := func() {
@@ -159,6 +177,12 @@ func (propC10) Draw(rt *rapid.T, w *WorldDesc, mode string) *Plan {
 			op.Raw = raw
 		} else {
 			op.Client = "go"
+			if useTSClient {
+				op.Client = "ts"
+			}
+			if op.Server == "ts" && op.Client == "go" && ctClient != "application/json" {
+				op.Opts = append(op.Opts, Opt{Kind: "contentType", Value: "application/json"})
+			}
 			for _, h := range hdrs {
 				op.Opts = append(op.Opts, Opt{Kind: "header", Key: h[0], Value: h[1]})
 			}
@@ -376,6 +400,9 @@ func (propC10) Check(k *Kernel, cov *Coverage) *Violation {
 			want = &sebufhttp.Error{Message: hp.MsgText}
 		case src == "err-plain":
 			want = &sebufhttp.Error{Message: c.Op.App.Text}
+			if c.Op.Server == "ts" && c.HandlerErr != nil {
+				want = &sebufhttp.Error{Message: c.HandlerErr.Error()}
+			}
 		case src == "err-sebuf":
 			want = &sebufhttp.Error{Message: c.Op.App.Text}
 		case src == "err-wrapped-custom":
@@ -478,7 +505,31 @@ func (propC10) Check(k *Kernel, cov *Coverage) *Violation {
 				}
 			}
 		}
-		cov.Tuple(k.W.Name, src, "fam="+fam, hk, c.Op.Client, fmt.Sprintf("status=%d", status))
+		if c.Op.Client == "ts" {
+			if c.Err == nil || c.TSError == nil {
+				return &Violation{Class: "client-swallowed-error", Signature: sig("client-swallowed-error", ""), Detail: fmt.Sprintf("op %d: server answered %d but the TS client resolved", c.Op.ID, status)}
+			}
+			kind := fmt.Sprint(c.TSError["kind"])
+			if status == 400 && (want == nil || isValidationMsg(want)) {
+				sve := &sebufhttp.ValidationError{}
+				_ = decode(sve)
+				var cve *sebufhttp.ValidationError
+				if kind != "validation" || !errors.As(c.Err, &cve) {
+					return &Violation{Class: "client-400-not-validation-error", Signature: sig("client-400-not-validation-error", ""),
+						Detail: fmt.Sprintf("op %d: 400 with a ValidationError body, TS client rejected with %v", c.Op.ID, c.TSError)}
+				}
+				if strings.Join(violationSet(cve), "|") != strings.Join(violationSet(sve), "|") {
+					return &Violation{Class: "client-violations-differ", Signature: sig("client-violations-differ", ""),
+						Detail: fmt.Sprintf("op %d: server sent %v, TS client error carries %v", c.Op.ID, violationSet(sve), violationSet(cve))}
+				}
+			} else if status != 400 {
+				if kind != "api" || numInt(c.TSError["statusCode"]) != status || fmt.Sprint(c.TSError["body"]) != string(rbody) {
+					return &Violation{Class: "client-error-loses-status", Signature: sig("client-error-loses-status", ""),
+						Detail: fmt.Sprintf("op %d: server answered %d %q, TS client rejected with %v", c.Op.ID, status, truncBytes(rbody), c.TSError)}
+				}
+			}
+		}
+		cov.Tuple(k.W.Name, src, "fam="+fam, hk, c.Op.Client+">"+c.Op.Server, fmt.Sprintf("status=%d", status))
 	}
 	return nil
 }
